@@ -1,6 +1,6 @@
 #!/bin/bash
 # runs every seeded change against the quick check of the property it targets (or the check named in seeded/<id>/check), four at a
-# time, each in its own scratch worktree and scratch copy of /verif (runmut2.sh): /repo and /verif/evidence are not touched.
+# time (ALLMUT_JOBS), optionally only those whose directory matches ALLMUT_FILTER, each in its own scratch worktree and scratch copy of /verif (runmut2.sh): /repo and /verif/evidence are not touched.
 cd ${VERIF_SRC:-/verif}
 one() {
   d=$1; n=$(basename $d); p=${n:0:3}
@@ -10,4 +10,4 @@ one() {
   echo "$n -> $p: $out"
 }
 export -f one
-ls -d seeded/*/ | sed 's#/$##' | xargs -P ${ALLMUT_JOBS:-4} -I{} bash -c 'one {}' | sort
+ls -d seeded/*/ | sed 's#/$##' | grep -E "${ALLMUT_FILTER:-.}" | xargs -P ${ALLMUT_JOBS:-4} -I{} bash -c 'one {}' | sort
